@@ -200,10 +200,13 @@ def listed_families(pid, findings):
     """family name -> text of the listed finding (known_findings.json, else the proposal shipped with the specs)."""
     fam = {}
     for f in findings.get("findings", []):
-        text = f if isinstance(f, str) else json.dumps(f)
-        if f"property={pid}" in text or (isinstance(f, dict) and f.get("property") == pid):
-            for m in re.finditer(r"family[=:]\s*\"?(\w+)", text):
-                fam[m.group(1)] = text
+        if isinstance(f, dict):
+            if f.get("property") == pid and f.get("family"):
+                fam[f["family"]] = f"{f.get('id', '')} {f.get('title', '')}".strip()
+            continue
+        if f"property={pid}" in f:
+            for m in re.finditer(r"family[=:]\s*\"?(\w+)", f):
+                fam[m.group(1)] = f
     if not fam:
         p = os.path.join(vlib.SPECS, SUB, "findings.json")
         if os.path.exists(p):
